@@ -798,6 +798,13 @@ def run(rep, prog, tier):
         generic.rule_name(rep, prog, prog.mod(INT), fn)
         generic.rule_def(rep, prog.mod(INT), fn)
     rep.floor('R-NPIDX', 2)
+    # C: the integer abs() applied to a floating-point value truncates it first (|x| < 1 -> 0); fabs() is the floating-point one
+    from sa.cfront import c_integer_abs_on_double
+    for name, cf in sorted(cprog.funcs.items()):
+        bad = c_integer_abs_on_double(cf)
+        rep.ob('R-CTYPE', 'C %s' % name, not bad, 'no integer abs() of a floating-point value' if not bad else
+               '; '.join('line %d: %s converts its floating-point argument to int (use fabs)' % b for b in bad), cf.rel, cf.line,
+               what='absolute values of floating-point quantities are taken in floating point')
     rep.floor('R-TPL(kernel)', 330)
     rep.floor('R-TPL(precalc)', 35)
     rep.floor('R-TPL(pyx)', 100)
